@@ -114,6 +114,7 @@ pub fn run(seed: u64, n: usize, ipv6: bool) -> String {
     let classes = [AssetClass::Mesh, AssetClass::Image, AssetClass::Audio];
     let mut published: Vec<(AssetClass, Uuid)> = vec![];
     let mut gets: Vec<(String, bool, Vec<u8>)> = vec![];
+    let mut last_url: Option<(AssetClass, Uuid, String)> = None;
     for _ in 0..n {
         if rng.chance(1, 4) {
             // publish (audio carries arbitrary bytes; mesh and image go through the real encoders)
@@ -151,6 +152,7 @@ pub fn run(seed: u64, n: usize, ipv6: bool) -> String {
             let cached = ep.served_bytes(c, &id).unwrap_or_default();
             out.push_str(&format!("CACHED {} {} {}\n", class_name(c), hex(id.as_bytes()), hex(&cached)));
             published.push((c, id));
+            last_url = Some((c, id, url.clone()));
         } else {
             let c = *rng.pick(&classes);
             let id = if !published.is_empty() && rng.chance(2, 3) { rng.pick(&published).1 } else { *rng.pick(&pool) };
@@ -201,6 +203,28 @@ pub fn run(seed: u64, n: usize, ipv6: bool) -> String {
         let a = raw_request(addr, "GET", &t, false);
         out.push_str(&format!("GET GET 0 {}", hex(&t)));
         print_answer(&mut out, &a);
+    }
+    // the URL the endpoint ADVERTISES is what the other peers fetch: a second endpoint downloads the last
+    // published asset through the crate's own request() (ureq) and must obtain exactly the served bytes
+    if let Some((c, id, url)) = last_url {
+        let dl = AssetEndpoint::new(ip, free_port(ip), 100_000_000);
+        dl.request(c, id, url.clone());
+        let want = ep.served_bytes(c, &id).unwrap_or_default();
+        let t0 = std::time::Instant::now();
+        let mut got = None;
+        while t0.elapsed() < Duration::from_secs(3) {
+            if let Some(b) = dl.downloaded_bytes(c, &id) {
+                got = Some(b);
+                break;
+            }
+            std::thread::sleep(Duration::from_millis(5));
+        }
+        let verdict = match &got {
+            Some(b) if *b == want => "same",
+            Some(_) => "different",
+            None => "timeout",
+        };
+        out.push_str(&format!("FETCH {} {} {} {}\n", class_name(c), hex(id.as_bytes()), verdict, url));
     }
     out.push_str("END\n");
     out
